@@ -518,8 +518,16 @@ def sentBeforeCloseOk (s : State) : Bool :=
 
 def ok2 (s : State) : Bool := ok1 s && deliveredOk s
 
+/-- the remaining exit reasons have a source too: `"Drained"` ⇒ `drain()` was called, `<failed>` ⇒ a
+message the handler fails on was sent -/
+def reasonSrcOk (s : State) : Bool :=
+  match s.target.exit with
+  | some (.failed, _) => s.target.manualFail
+  | some (.drained, _) => s.target.draining
+  | _ => true
+
 /-- C12, clauses that hold for every schedule of the small steps. -/
-def ok (s : State) : Bool := ok2 s && sentBeforeCloseOk s
+def ok (s : State) : Bool := ok2 s && sentBeforeCloseOk s && reasonSrcOk s
 
 /-- an interval whose target left the active states is gone within one period (wheel deadline) —
 or, if it was created after that off the millisecond grid, at the next millisecond boundary -/
